@@ -13,6 +13,7 @@ import (
 	"math/rand"
 	"os"
 	"sort"
+	"strings"
 
 	"github.com/bradenaw/juniper/iterator"
 	"github.com/bradenaw/juniper/xerrors"
@@ -104,6 +105,17 @@ func (w *W) call(v Vec, f func(v *Vec)) {
 	}()
 	w.put(v)
 }
+
+//go:noinline
+func deepCaller(n int) error {
+	if n <= 1 {
+		return stackLeafCaller()
+	}
+	return deepCaller(n - 1)
+}
+
+//go:noinline
+func stackLeafCaller() error { return xerrors.WithStack(errors.New("leaf")) }
 
 func cp(a []int) []int { return append([]int{}, a...) }
 func b2i(b bool) int {
@@ -472,6 +484,15 @@ func chainDepth(err error) int {
 
 func Errors(w *W) {
 	w.call(Vec{Fn: "WithStackNil"}, func(v *Vec) { v.R = b2i(xerrors.WithStack(nil) == nil) })
+	// the stack that WithStack adds to Error() names its caller, however deep the call stack is (here 1, 40, 70, 200 frames
+	// of recursion below this point)
+	for _, depth := range []int{1, 40, 70, 200} {
+		w.call(Vec{Fn: "WithStackDeep", X: depth}, func(v *Vec) {
+			e := deepCaller(depth)
+			txt := e.Error()
+			v.R = b2i(strings.Contains(txt, "helpers.stackLeafCaller") && strings.Contains(txt, "helpers.deepCaller"))
+		})
+	}
 	for depth := 1; depth <= 3; depth++ {
 		for pre := 0; pre <= 1; pre++ { // pre = 1: a stack is already attached somewhere inside the chain
 			w.call(Vec{Fn: "WithStack", X: depth, Y: pre}, func(v *Vec) {
